@@ -105,6 +105,10 @@ class Meter:
         except StepBudgetExceeded as e:
             v = e
             status = 'budget'
+        except lib.Deadlock as e:
+            v = e
+            status = 'budget'
+            self.where = 'deadlock'
         except Exception as e:
             v = e
             status = 'exc'
